@@ -6,6 +6,41 @@ V = os.path.dirname(os.path.dirname(os.path.abspath(__file__)))
 props = [json.loads(l) for l in open(os.path.join(V, 'properties.jsonl'))]
 
 CHECKS = {
+ 'C05': dict(
+   technique='Coq proof (induction over arbitrary scripts of inbound reads with the invariants Waiting/Answered/Shape) over the shared channel state-machine model of Rpc/Channel/Basic; correspondence by vm_compute on scenarios run against the real objects; known findings pinned by refuted-witness theorems',
+   text='Props/C05.v: C05_own_reply - on a healthy channel with no reply bookkeeping left, for ANY script in which the frames before the reply are quiet for the call (deliveries, cancels, unknown frames, any traffic of other channels, any number of reads) the call returns exactly the first frame answering it and leaves no bookkeeping behind, so the next call starts from the same condition; C05_unsolicited (frames nobody waits for are never consumed as replies and content frames are queued); C05_channels_independent (frame rule). C05_aborted_refuted / C05_return_content_refuted are kernel-checked witnesses of the two open known findings. The model (Model/Chan.v) is run in Coq on the same scenarios as the real Connection/Channel/Rpc/Basic (profiles rpc, errors of harness/changen.py): per step the result, a snapshot of the channel (state, consumer tags, queue length, sizes of the rpc maps, queued errors, confirm flag, connection state and errors, registration), the frames written and the frames the reader handled are compared; the predicate c05_ok (own serial echoed; errors only with a reason) is evaluated on the real observations.',
+   note='Trusted: Coq kernel + vm_compute; scenario runner harness/chanrt.py (virtual runtime, silent recording broker); one application thread per scenario, the reader running whenever the application sleeps (interleavings finer than that are not explored by this check); the peer is a conforming broker.',
+   design='6 C05'),
+ 'C13': dict(
+   technique='Coq proof (same invariants, plus a no-queued-error invariant) of the confirm outcome over the shared channel model; correspondence by vm_compute on confirm scenarios; known finding pinned by a refuted-witness theorem',
+   text='Props/C13.v: C13_outcome - on a healthy confirming channel, for ANY script whose frames around the verdict are quiet, publish returns True exactly when the first Ack/Nack is an Ack and False when it is a Nack, and leaves no bookkeeping behind (so with the broker answering publishes in turn each caller gets the verdict on its own message). C13_aborted_refuted is the kernel-checked witness of the open finding (late Ack after an aborted wait). The predicate c13_ok attributes verdicts by the delivery tag the broker assigns (n-th publish received on the channel) and is evaluated on real observations of the confirm profile (fates ack, nack, return+ack, channel close, connection close, silence, 1-2 channels).',
+   note='Trusted: Coq kernel + vm_compute; scenario runner harness/chanrt.py (virtual runtime, silent recording broker); one application thread per scenario, the reader running whenever the application sleeps (interleavings finer than that are not explored by this check); the peer is a conforming broker.',
+   design='6 C13'),
+ 'C15': dict(
+   technique='Coq proof by exhaustive case analysis of every exit path of basic.get for arbitrary scripts (no residue), over the shared channel model; correspondence by vm_compute on get scenarios',
+   text='Props/C15.v: C15_no_residue - for EVERY script (message, empty, channel/connection close at any stage, silence at any stage, stray frames) the request basic.get registered is gone when it returns; C15_refuses_with_consumers - with active consumers it raises before anything is written or changed. Whole-message content (GetOk, header, any number of body frames) is checked by the predicate c15_ok on real observations and by model equality on the get profile (bodies of 0-3 frames, all outcomes, followed by further synchronous calls).',
+   note='Trusted: Coq kernel + vm_compute; scenario runner harness/chanrt.py (virtual runtime, silent recording broker); one application thread per scenario, the reader running whenever the application sleeps (interleavings finer than that are not explored by this check); the peer is a conforming broker.',
+   design='6 C15'),
+ 'C03': dict(
+   technique='Coq proof (induction over the list of queued messages and over body frames, with fuel adequacy) over the shared channel model; correspondence by vm_compute on consume scenarios',
+   text='Props/C03.v: C03_all_delivered - any number of complete deliveries (any number of non-empty body frames each) waiting in the queue are handed out exactly once, in order, each with exactly its own body, nothing left; C03_queued_in_order / C03_other_channels (the reader queues content frames in arrival order, other channels never touch the queue); C03_stray_frame_dropped_alone (content of a returned message in front of a delivery is discarded one frame at a time). The predicate c03_ok (handed-out messages are a prefix of the deliveries the broker sent on that channel, complete once the queue is empty) is evaluated on real observations of the consume profile: deliveries interleaved with returns, other channels, replies to synchronous calls, messages whose frames arrive while the consumer is already reading; process_data_events and build_inbound_messages.',
+   note='Trusted: Coq kernel + vm_compute; scenario runner harness/chanrt.py (virtual runtime, silent recording broker); one application thread per scenario, the reader running whenever the application sleeps (interleavings finer than that are not explored by this check); the peer is a conforming broker.',
+   design='6 C03'),
+ 'C14': dict(
+   technique='Coq proof (monotonicity of the written-frames log through every function, induction over the tag list) for every script; correspondence by vm_compute on consume scenarios',
+   text='Props/C14.v: C14_stop_cancels_all - for EVERY script, when stop_consuming returns normally a Basic.Cancel has been written for every consumer that was active and none is remembered; C14_consume_confirmed_tag - consume returns the tag the broker confirmed and registers tag and callback under it, whatever quiet traffic surrounds the reply. The predicate c14_ok compares the client list with the broker table (ConsumeOk sent, Basic.Cancel received or sent) at every quiescent point of real runs (client- and broker-named tags, cancels by the application and by the broker, stop_consuming).',
+   note='Trusted: Coq kernel + vm_compute; scenario runner harness/chanrt.py (virtual runtime, silent recording broker); one application thread per scenario, the reader running whenever the application sleeps (interleavings finer than that are not explored by this check); the peer is a conforming broker.',
+   design='6 C14'),
+ 'C07': dict(
+   technique='Coq proofs (frame rule, FIFO of queued errors, exact raise-once rule) over the shared channel model; correspondence by vm_compute on error scenarios; known finding pinned by a refuted-witness theorem',
+   text='Props/C07.v: C07_channel_isolated / C07_connection_untouched (frame rule: whatever arrives for channel c changes no other channel nor the connection), C07_close_reason_recorded (code recorded, channel closed), C07_raised_once (the oldest queued error is what the next operation raises, once), C07_returns_fifo (n returns give n message errors in order, channel open). C07_masked_close_refuted is the kernel-checked witness of the open finding. The predicates c07_ok / c07_isolation_ok (expected error per operation, other channels clean) are evaluated on real observations of the errors, rpc and confirm profiles (Channel.Close, Connection.Close incl. code 200, returns, pending or idle, 2-3 channels).',
+   note='Trusted: Coq kernel + vm_compute; scenario runner harness/chanrt.py (virtual runtime, silent recording broker); one application thread per scenario, the reader running whenever the application sleeps (interleavings finer than that are not explored by this check); the peer is a conforming broker.',
+   design='6 C07'),
+ 'C11': dict(
+   technique='Coq proofs (exactly-one CloseOk for any queued errors; nothing written on a closed channel; CLOSED on every exit of close()) over the shared channel model; correspondence by vm_compute on error/consume scenarios',
+   text='Props/C11.v: C11_broker_close (whatever is queued, exactly one Channel.CloseOk is written, consumers and undelivered frames dropped, CLOSED), C11_closed_channel_writes_nothing and C11_closed_channel_rpc_writes_nothing (every later operation raises before writing), C11_app_close_leaves_closed (for EVERY script close() ends CLOSED with nothing buffered, also when the wait fails), C11_app_close_cancels_consumers. The predicate c11_ok counts CloseOk/Close frames per channel in the recorded wire traffic of real runs (close once, twice, after broker close, with queued errors and consumers).',
+   note='Trusted: Coq kernel + vm_compute; scenario runner harness/chanrt.py (virtual runtime, silent recording broker); one application thread per scenario, the reader running whenever the application sleeps (interleavings finer than that are not explored by this check); the peer is a conforming broker.',
+   design='6 C11'),
  'C19': dict(
    technique='Coq proofs (percent-coding lemmas, split/join induction) + endpoint table regenerated from the source by a fail-closed AST translator and proved equal to a hand-maintained specification table by vm_compute; dynamic validation of every call site through a transport adapter; response classification theorem',
    text='Props/C19.v: C19_quote_one_segment (any name, percent-encoded, has no / ? # and decodes back), C19_path_segments (for every operation whose holes are all quoted and ALL names the path is /api/ + exactly the template segments, one per name), C19_table_ok (the table regenerated from the management wrappers on this run - verb, endpoint template, quoted/raw per hole, payload keys, listing forwarding - equals the specification table and every hole is quoted), C19_errors (total classification of responses), C19_normalisation_partial and C19_dot_names_refuted (names "." and ".." are removed by URL normalisation: recorded known finding). Every http call site of every public management operation is exercised on the real client with names rich in / ? # % space and non-ASCII and with all response classes; the captured PreparedRequest (method, path as sent, JSON body) and outcomes are compared with the model and judged by the Coq predicate.',
